@@ -95,7 +95,19 @@ impl<'a> Display for FormatReportFormatter<'a> {
 
 fn annotation(error: &FormattingError) -> Option<Annotation<'_>> {
     let (range_start, range_length) = error.format_len();
-    let range_end = range_start + range_length;
+    // `format_len` measures in columns (a tab counts as `tab_spaces` columns, a multi-byte
+    // character as one), while the annotation is a byte range into `line_buffer`: keep it
+    // inside the buffer and on character boundaries.
+    let clamp = |index: usize| {
+        let mut index = index.min(error.line_buffer.len());
+        while !error.line_buffer.is_char_boundary(index) {
+            index -= 1;
+        }
+        index
+    };
+    let range_start = clamp(range_start);
+    let range_end = clamp(range_start + range_length);
+    let range_length = range_end - range_start;
 
     if range_length > 0 {
         Some(Level::Error.span(range_start..range_end))
